@@ -51,6 +51,11 @@ GEN_MODELS = {
     'gen:logit_shared': ('ADVAN1 TRANS2', ['TVCL = THETA(1)*(WGT/70)**THETA(3)', 'CL = TVCL*EXP(ETA(1))',
                                            'V = THETA(2)*EXP(ETA(2) + 0.5*ETA(1))',
                                            'F1 = EXP(THETA(4)+ETA(1))/(1+EXP(THETA(4)+ETA(1)))', 'S1 = V'], False),
+    # a variable with a value that is re-assigned by a block IF whose ELSE branch is the literal 0, with thetas
+    # numbered after the peripheral compartment's (removing the peripheral compartment renumbers them)
+    'gen:else_zero_periph': ('ADVAN3 TRANS4', ['CLX = THETA(6)', 'IF (APGR.LT.5) THEN', '    CLX = THETA(5)*WGT', 'ELSE',
+                                               '    CLX = 0', 'END IF', 'CL = THETA(1)*EXP(ETA(1)) + CLX',
+                                               'V1 = THETA(2)*EXP(ETA(2))', 'Q = THETA(3)', 'V2 = THETA(4)', 'S1 = V1'], False),
     # an alias taken before the aliased variable is redefined, and used after the redefinition
     'gen:alias_before_redef': ('ADVAN1 TRANS2', ['CL = THETA(1)*EXP(ETA(1))', 'TVV = THETA(2)', 'VREF = TVV',
                                                   'IF (APGR.LT.5) TVV = TVV*(1 + THETA(3))', 'V = TVV*EXP(ETA(2))',
